@@ -1329,6 +1329,21 @@ func listsDoNotShareStorage(c *core.Ctx) {
 							other = true
 						}
 					}
+					// ... or over storage that the function keeps appending to in a
+					// loop, taken without a limit on the capacity: the room behind
+					// the window is where the next round's items are written, and
+					// an append to the list writes there first
+					if !other && sl.Max == nil && inLoop(b) {
+						for _, so := range core.Origins(sl.X) {
+							if oc, ok := so.(*ssa.Call); ok {
+								if bi, ok := oc.Call.Value.(*ssa.Builtin); ok && bi.Name() == "append" && inLoop(oc.Block()) {
+									n++
+									c.Check(false, core.SSAName(fn)+"|new-list-on-own-storage|shared-block|"+sprintf("%d", countBefore(fn, in, cal)), p.Pos(call.Pos()),
+										core.SSAName(fn)+" makes a list from a window, with no limit on its capacity, onto storage that it goes on appending to: the lists it makes lie one behind the other in one array, and an append to one of them overwrites the first item of the next")
+								}
+							}
+						}
+					}
 					if !other {
 						continue
 					}
